@@ -56,6 +56,8 @@ def parseExpr : Nat → List String → Option (Expr × List String)
       | c :: v :: r => do
         let c ← parseCmp c
         let v ← v.toNat?
+        -- `strconv.Atoi`: a literal beyond Go's `int` (64 bit) is a parse error
+        let v ← (if v ≤ 9223372036854775807 then some v else none)
         pure (.cmp (if t == "att" then .attempts else .responseCode) c v, r)
       | _ => none
     | "meq" => match rest with
